@@ -2468,6 +2468,8 @@ class Engine:
                                  % rc.exc)
         if c.ret_cases is not None:
             match = None
+            if res.ty.kind == 'any':
+                res = self.narrow(st, res)
             for lab, guard, ty in c.ret_cases:
                 if ty.kind == res.ty.kind or (ty.kind == 'list' and res.ty.kind == 'list'):
                     try:
